@@ -1484,6 +1484,11 @@ class Interp:
         if isinstance(op, ast.NotEq):
             return z3.Not(self.world.py_eq(self, a, b))
         if isinstance(op, (ast.Is, ast.IsNot)):
+            for x, y in ((a, b), (b, a)):
+                if isinstance(x, VNone) and isinstance(y, VOb):
+                    # an abstract wire value is any python value, None included: both outcomes are explored
+                    r = T.ob_is_none(y.t)
+                    return r if isinstance(op, ast.Is) else z3.Not(r)
             if isinstance(a, VNone) or isinstance(b, VNone):
                 r = z3.BoolVal(isinstance(a, VNone) and isinstance(b, VNone))
                 return r if isinstance(op, ast.Is) else z3.Not(r)
